@@ -10,7 +10,8 @@ Definition t (s : string) : text := List.map N_of_ascii (list_ascii_of_string s)
 
 Definition gen_consts : consts :=
   {| k_prefix := path_prefix; k_methods := allowed_methods; k_preflight := preflight_method;
-     k_key := key_param; k_meta := meta_member; k_oneway := oneway_option; k_sep := options_sep |}.
+     k_key := key_param; k_meta := meta_member; k_oneway := oneway_option; k_sep := options_sep;
+     k_index_limit := index_limit |}.
 
 (* regex oracle: the harness evaluates re.match(pattern, name) for every name the request or the
    registry can mention and ships the answers; a name missing from the table counts as no match *)
@@ -37,17 +38,22 @@ Definition action_eqb (a b : action) : bool :=
   | AGetAttr u m, AGetAttr u' m' | ALocal u m, ALocal u' m' => teqb u u' && teqb m m'
   | _, _ => false
   end.
+(* which builtin exception class the gateway itself uses to reject a forwarded request (bad correlation id,
+   parameters on an attribute read, unknown member, uncallable parameter name) is incidental: the property only
+   says the client gets an error (500).  Errors coming from the backend keep their class. *)
 Definition exc_eqb (a b : exc) : bool :=
   match a, b with
-  | ENaming, ENaming | EValue, EValue | EAssertion, EAssertion | EAttribute, EAttribute
-  | ETypeError, ETypeError => true
+  | ENaming, ENaming => true
   | EBackend x, EBackend y => x =? y
+  | (EValue | EAssertion | EAttribute | ETypeError), (EValue | EAssertion | EAttribute | ETypeError) => true
   | _, _ => false
   end.
 Definition body_eqb (a b : body) : bool :=
   match a, b with
   | BRedirect, BRedirect | BPreflight, BPreflight | BNotAllowed, BNotAllowed | BNotFound, BNotFound
-  | BForbiddenKey, BForbiddenKey | BForbiddenObject, BForbiddenObject | BNsDown, BNsDown | BEmpty, BEmpty => true
+  | BNsDown, BNsDown | BEmpty, BEmpty => true
+  (* the wording of a refusal (which of the two 403 texts) is incidental; the status is compared *)
+  | (BForbiddenKey | BForbiddenObject), (BForbiddenKey | BForbiddenObject) => true
   | BIndex x, BIndex y => list_eqb teqb x y
   | BMeta m a, BMeta m' a' => list_eqb teqb m m' && list_eqb teqb a a'
   | BRaw x, BRaw y => list_eqb N.eqb x y
